@@ -609,14 +609,82 @@ fn exec_op(st: &State, op: &str, c: &Cmd, nested: bool) -> OpResult {
             //                     every one must be refused with OpenError and leave the counter where it was
             //   mode "roundtrip": `n` messages sealed by "ctx_s" and opened by "ctx", each must come back
             // Reports how many iterations conformed ("done") and, if fewer than n, what the first other one did.
+            //   mode "export":    `n` exports with the same arguments from "ctx" (either role): all equal to the first
+            //   mode "refuse":    `n` seals on the exhausted sender "ctx": all MessageLimitReached, buffer untouched
             let n = c.int("n")?;
             let aad = c.bytes("aad")?;
             let hr = st.need_ctx(c.str("ctx")?)?;
             let mut r = lock(&hr);
+            let mode = c.str("mode")?;
+            if mode == "export" {
+                let len = c.len("len")?;
+                return guard(|| {
+                    let mut first = vec![0u8; len];
+                    r.export(&aad, &mut first)?;
+                    let mut out = vec![0u8; len];
+                    for i in 1..n {
+                        out.iter_mut().for_each(|b| *b = 0);
+                        let res = r.export(&aad, &mut out);
+                        if res.is_err() || out != first {
+                            let what = match res {
+                                Ok(()) => "another value".to_string(),
+                                Err(ops::CtxErr(_, e)) => format!("{:?}", e),
+                            };
+                            return Ok(obj! {"done": i, "bad": what});
+                        }
+                    }
+                    Ok(obj! {"done": n, "out": hexv(&first)})
+                });
+            }
+            if mode == "bulk" {
+                // `n` messages of `size` bytes sealed in place on the sender "ctx" (one buffer, re-filled): every one
+                // must succeed and advance the counter by one - whatever the total number of bytes
+                if r.role() != "S" {
+                    return Err(tool("soak bulk: ctx must be a sender context"));
+                }
+                let size = c.len("size")?;
+                let start = r.get_seq().0;
+                return guard(|| {
+                    let mut buf = vec![0x5au8; size];
+                    for i in 0..n {
+                        let res = r.seal_detached(&mut buf, &aad);
+                        if res.is_err() || r.get_seq() != (start + i + 1, false) {
+                            let what = match res {
+                                Ok(_) => "counter state".to_string(),
+                                Err(ops::CtxErr(_, e)) => format!("{:?}", e),
+                            };
+                            return Ok(obj! {"done": i, "bad": what, "bytes_before": (i as u128 * size as u128).to_string()});
+                        }
+                    }
+                    Ok(obj! {"done": n})
+                });
+            }
+            if mode == "refuse" {
+                if r.role() != "S" {
+                    return Err(tool("soak refuse: ctx must be a sender context"));
+                }
+                let pt = c.bytes("pt")?;
+                let before = r.get_seq();
+                return guard(|| {
+                    for i in 0..n {
+                        let mut buf = pt.clone();
+                        let res = if i % 2 == 0 { r.seal_alloc(&pt, &aad).map(|_| ()) } else { r.seal_detached(&mut buf, &aad).map(|_| ()) };
+                        let ok = matches!(res, Err(ops::CtxErr(_, hpke::HpkeError::MessageLimitReached)));
+                        if !ok || buf != pt || r.get_seq() != before {
+                            let what = match res {
+                                Ok(()) => "sealed".to_string(),
+                                Err(ops::CtxErr(_, e)) => format!("{:?}", e),
+                            };
+                            return Ok(obj! {"done": i, "bad": what});
+                        }
+                    }
+                    Ok(obj! {"done": n})
+                });
+            }
             if r.role() != "R" {
                 return Err(tool("soak: ctx must be a receiver context"));
             }
-            match c.str("mode")? {
+            match mode {
                 "reject" => {
                     let ct = c.bytes("ct")?;
                     let before = r.get_seq();
